@@ -85,6 +85,13 @@ def scenarios(sch):
         {'op': 'set', 'v': b7(ra), 'freeze': True}, {'op': 'w'},
         {'op': 'set', 'v': b7(rb), 'freeze': True}, {'op': 'w'},
         {'op': 'set', 'v': b7(ra), 'freeze': True}, {'op': 'w'}, {'op': 'f'}]))
+    # S9: a frozen dictionary struct replaced twice between two writes (fixed by 610661e): the second
+    # replacement differs from the first only in one field, from the last written value in two
+    rA, rB, rC = ['6b31', [], '204'], ['', [], '355'], ['', [], '30877976676352']
+    out.append(dict(id='S9-dict-struct-replaced-twice', root='Metrics', ops=[
+        {'op': 'set', 'v': b7(rA), 'freeze': True}, {'op': 'w'},
+        {'op': 'set', 'v': b7(rB), 'freeze': True},
+        {'op': 'set', 'v': b7(rC), 'freeze': True}, {'op': 'w'}, {'op': 'f'}]))
     return out
 
 
